@@ -299,6 +299,10 @@ void OrderedSimplex::setFrequencies(const std::vector<double>& vValues)
   if (dim == 0)
     return;
 
+  // the base class reads dimension() entries whatever the size of its argument
+  if (dim != dimension())
+    throw DimensionException("OrderedSimplex::setFrequencies. Wrong number of values.", dim, dimension());
+
   Vdouble vprob(dim);
 
   for (size_t i = 0; i < dim - 1; ++i)
